@@ -435,17 +435,18 @@ Step(m) ==
   IF p.ln = PastEnd
   THEN \* ran off the end of the program / finished the direct line: an implicit END
        \* (a program that runs off its end cannot be continued)
-       IF m.pc.ln = Direct \/ ~InProgram(m.pc) THEN GoReady(m)
+       \* (a program interrupted just before its end and continued also ends here: pc.ln = PastEnd)
+       IF m.pc.ln = Direct THEN GoReady(m)
        \* (with TRON on, a last line that has nothing to execute: "the executing line number is
        \* printed" and "the lines actually entered" disagree about it, and the manual does not
        \* settle it -- the trace of that line is optional: an item the observed output may or may
        \* not contain)
+       \* (like every trace output it is a step of its own: an interrupt may fall after it)
        ELSE LET last == CHOOSE x \in DOMAIN m.lst : \A y \in DOMAIN m.lst : y <= x
-                opt == m.tron /\ m.lst # EmptyFn /\ ~Traceable(m.lst[last]) /\ m.ltr # last
-                m1 == IF opt THEN Item(m, [k |-> "opt", s |-> <<91>> \o DigitsOf(last) \o <<93>>
-                                                              \o (IF m.col = 0 THEN <<10>> ELSE <<>>)])
-                      ELSE m IN
-            GoReady([m1 EXCEPT !.cont = NoCont, !.contx = FALSE])
+                opt == m.tron /\ m.lst # EmptyFn /\ ~Traceable(m.lst[last]) /\ m.ltr # last IN
+            IF opt THEN [Item(m, [k |-> "opt", s |-> <<91>> \o DigitsOf(last) \o <<93>>
+                                                      \o (IF m.col = 0 THEN <<10>> ELSE <<>>)]) EXCEPT !.ltr = last]
+            ELSE GoReady([m EXCEPT !.cont = NoCont, !.contx = FALSE])
   \* entering a line with TRON on prints its number: a step of its own (an interrupt may
   \* fall between the trace output and the line's first statement)
   ELSE IF m.tron /\ InProgram(p) /\ p.ln # m.ltr /\ Traceable(m.lst[p.ln])
